@@ -14,6 +14,7 @@ CONSTANTS
   ListAns = {"a0", "a12", "a1", "a1f"}
   MaxItems = 3
   Layouts = {}
+  TableOnly = {"g1212"}
   OkRecomputed = FALSE
 INVARIANT InvStage
 INVARIANT InvGradesInUnit
